@@ -66,23 +66,24 @@ type engineB struct {
 	nut   *Node
 	conns map[uint64]*wirePeer // by sender id
 
-	epochs   []*epoch
-	C        []uEntry
-	nextTerm uint64
-	updSeq   int
-	cfgIdx   int
-	has6     bool
-	bag      []*wireMsg
-	sent     int64
-	steps    int64
-	peersUp  bool
-	cid      uint64
-	vfsmOpen bool
-	vlen     int64
-	vroll    uint64
-	burst    bool
-	fragK    int
-	crashAt  int
+	epochs    []*epoch
+	C         []uEntry
+	nextTerm  uint64
+	updSeq    int
+	cfgIdx    int
+	has6      bool
+	bag       []*wireMsg
+	sent      int64
+	steps     int64
+	peersUp   bool
+	cid       uint64
+	vfsmOpen  bool
+	vlen      int64
+	vroll     uint64
+	burst     bool
+	truncated int64
+	fragK     int
+	crashAt   int
 }
 
 const nutID = 1
@@ -664,6 +665,19 @@ func (e *engineB) burstTraffic(ep *epoch) {
 		e.rc.emit(rec)
 	}
 	_ = p.conn.SetDeadline(time.Now().Add(10 * time.Second))
+	if e.fragK > 0 && len(buf) > 2 && e.rng.Intn(4) == 0 {
+		// the sender dies in the middle of the burst: the node reads a prefix
+		// (whole requests, then part of one) and end-of-stream. What it makes
+		// of the part is judged by the log rules: every entry it stores must
+		// be an entry that was sent.
+		cut := 1 + e.rng.Intn(len(buf)-1)
+		e.rc.emit(&ev.Rec{K: "wire-truncated", Src: ep.leader, Nid: nutID, Cid: e.cid, Cnt: int64(cut), Pos: int64(len(buf))})
+		_, _ = p.conn.Write(buf[:cut])
+		p.close()
+		delete(e.conns, ep.leader)
+		atomic.AddInt64(&e.truncated, 1)
+		return
+	}
 	if _, err := p.conn.Write(buf); err != nil {
 		p.close()
 		delete(e.conns, ep.leader)
